@@ -143,6 +143,36 @@ T = {
              "C18-R7 (one fresh-name counter for the whole search)", "missed by C18-R1..R6; C18-R7 added"),
     "C19c": ("C19", "compute_repairs searches only the facts that hit a constraint in a predicate-only RuleIndex lookup and adds the rest to every repair",
              "a constraint with a variable in predicate position", "C19-R8 (the repair search ranges over all facts)", "missed by C19-R1..R7; C19-R8 added"),
+    # ---- batch d (after the probe round; agents were told every earlier mechanism and the generic families to avoid)
+    "C01d": ("C01", "Condition::logical_and evaluates its right operand only when the left one is true: `error && false` is an error instead of false",
+             "a FILTER with a negated conjunction whose left operand raises an error (unbound variable, number vs non-number) and whose right operand is false",
+             "C01-R17 (a three-valued connective returns without consulting its right operand only when the left one decides)", "missed by C01-R1..R19; C01-R17 (c) added"),
+    "C02d": ("C02", "the planner replaces `GRAPH <iri> { .. }` by an empty VALUES when the cost estimator's cached statistics do not list the graph",
+             "statistics cached by an earlier query, then a named graph created through an API that does not invalidate them, then a query on that graph",
+             "C02-R11 (no candidate plan drops a sub-plan)", "missed by C02-R1..R10; C02-R11 added"),
+    "C03d": ("C03", "DatasetIndex::delete_quad registers the quad's named graph in the catalog before testing whether the quad is stored",
+             "a DELETE form naming a quad in a named graph that never existed", "C04-R6 (a delete that removes nothing writes nothing) - reported by the C04 check",
+             "not reported by ./check C03 (the catalog discipline is a C04 rule); ./check C04 reports it", ["C04"]),
+    "C04d": ("C04", "query_merged_graphs emits a triple only from its smallest owning graph, where the owners are taken over the whole index instead of the source graphs",
+             "the same triple in two graphs and a merge over sources that include one owner but not the smallest one",
+             "C04-R8 (the merged read path drops an element only as a duplicate and reads the index only through query_graph on its sources)", "missed by C04-R1..R7; C04-R8 added"),
+    "C05d": ("C05", "matches_rule_pattern collects new bindings on the side and commits them after all three positions matched: a variable repeated inside one pattern is never compared with itself",
+             "the parallel strategy (or constraints) with a premise like `?V rel ?V`, the variable still unbound, and a fact with subject != object",
+             "C05-R11 (match-or-bind sees its own earlier bindings)", "missed by C05-R1..R10; C05-R11 added"),
+    "C06d": ("C06", "shannon_wmc returns a noisy-OR closed form when the proofs are pairwise disjoint as sets of signed literals - (x,true) and (x,false) count as unrelated",
+             "DNF mode, a rule with negation, one uncertain input positive in one proof and negated in another proof of the same fact",
+             "C06-R8 (the exact model counter has no shortcut)", "missed by C06-R1..R7; C06-R8 added"),
+    "C07d": ("C07", "try_apply encodes the operator in the apply-cache key as `(op == And) as u8` while apply uses `op as u8`: the twins read each other's entries for the opposite operator",
+             "one manager used through both the plain and the budgeted API, the same operand pair combined with AND by one and OR by the other",
+             "C07-R9 (twins address the shared caches alike)", "missed by C07-R1..R8; C07-R9 added"),
+    "C08d": ("C08", "when the adaptive top-k loop gives up, a shortcut certifies NoAlert from `wmc + marginal_gain + frontier`, but marginal_gain falls back to 0 when the probe's count ran out of budget",
+             "monotone lineage with more proofs than k, the top-k deadline expiring inside the probe's model count, wmc + frontier < threshold <= truth",
+             "C08-R2 / C08-R5 (NoAlert is controlled by the published interval's upper bound; a budget failure never reaches a certified result)", None),
+    "C09d": ("C09", "scope() computes the first window's open as ceil((|t - t0| - width) / slide) * slide: the slide grid anchors opens instead of closes",
+             "a width that is not a multiple of the slide", "C09-R4 (the first opened interval closes at the slide boundary at/after the event)", None),
+    "C10d": ("C10", "a new helper canonical_row sorts a row's (variable, value) pairs by value; both row-canonicalisation sites use it",
+             "ISTREAM / DSTREAM, a row that binds two variables to the same term and stays in the window for two firings",
+             "C10-R8 (a row has one canonical form: sorted by a key unique within the row)", "missed by C10-R1..R7; C10-R8 added"),
     "C16b": ("C16", "sparql_aggregate returns the slice matched by the case-insensitive keyword helper instead of the canonical literal",
              "an aggregate keyword not written in upper case", "C16-R4 (keyword text never reaches the tree)",
              "missed by C16-R1..R3 (C01-R1 fired only through a floor, for the wrong reason); C16-R4 added, C01-R1 reads constant tables"),
@@ -175,10 +205,11 @@ def main():
         mp = os.path.join(d, "meta.json")
         m = json.load(open(mp)) if os.path.exists(mp) else None
         if sid in T:
-            prop, what, needs, det, hist = T[sid]
+            prop, what, needs, det, hist = T[sid][:5]
+            by_props = T[sid][5] if len(T[sid]) > 5 else [prop]
             demo = [f for f in os.listdir(d) if f.startswith("seeded_demo")][0]
             m = {"property": prop, "source": SRC % sid, "what": what, "needs_to_manifest": needs, "demo": demo,
-                 "detected_by": "./check %s: %s; rc=1" % (prop, det), "detected_by_props": [prop]}
+                 "detected_by": "./check %s: %s; rc=1" % (by_props[0], det), "detected_by_props": by_props}
             if hist:
                 m["history"] = "first run: " + hist
         if m is None:
